@@ -129,6 +129,7 @@ pub fn all(quick: bool) -> Vec<Scenario> {
     v.extend(timelimit(quick));
     v.extend(wait(quick));
     v.extend(misc(quick));
+    v.extend(prio(quick));
     v.extend(grid(quick));
     v.extend(hqgrid(quick, false));
     if !quick {
@@ -154,6 +155,7 @@ pub fn family(name: &str, quick: bool) -> Vec<Scenario> {
         "timelimit" => timelimit(quick),
         "wait" => wait(quick),
         "misc" => misc(quick),
+        "prio" => prio(quick),
         "journal" => journal(quick),
         "grid" => grid(quick),
         "wq" => with_worker_query(),
@@ -985,6 +987,57 @@ pub fn wait(_quick: bool) -> Vec<Scenario> {
                 vec![sub(arr(&[0], 1).wait())],
             ],
         ),
+    ]
+}
+
+/// Priorities in reachable scheduler states (C15's dynamic half): what pre-sending, starts from a
+/// worker's backlog, cancels and losses leave behind in the ready queues before the round judged.
+pub fn prio(quick: bool) -> Vec<Scenario> {
+    let y = || RqSpec::cpus(1).entry("gpus", "compact", 10_000);
+    vec![
+        // the worker starts every pre-sent task of a class; then a more urgent task of that class
+        // and a task of another class with a priority in between arrive
+        Scenario::new(
+            "prio-after-presend-drained",
+            vec![w(1).with("gpus", 1)],
+            vec![
+                vec![sub(arr(&[0, 1], 1))],
+                vec![sub(arr(&[0], 1).prio(5)), sub(SubmitSpec::array(&[0], y()).prio(3))],
+            ],
+        )
+        .prefill(0, 1),
+        // the same with the two classes swapped and a second pre-sent task
+        Scenario::new(
+            "prio-after-presend-drained-gpu",
+            vec![w(1).with("gpus", 1)],
+            vec![
+                vec![sub(SubmitSpec::array(&[0, 1], y()))],
+                vec![sub(SubmitSpec::array(&[0], y()).prio(5)), sub(arr(&[0], 1).prio(3))],
+            ],
+        )
+        .prefill(0, 1),
+        // three levels of one class and a second class in between, a cancel and a failing task
+        Scenario::new(
+            "prio-levels-cancel",
+            vec![w(1).with("gpus", 1)],
+            vec![
+                vec![sub(arr(&[0, 1], 1).prio(1)), sub(arr(&[0], 1).prio(4))],
+                vec![sub(SubmitSpec::array(&[0, 1], y()).prio(2)), Req::Cancel(1)],
+            ],
+        )
+        .prefill(0, 1)
+        .budgets(0, 1, 0, 1)
+        .depth(if quick { 13 } else { 0 }),
+        // two workers, one lost: pre-sent tasks return to the queue at their old priority
+        Scenario::new(
+            "prio-presend-worker-lost",
+            vec![w(1), w(1)],
+            vec![vec![sub(arr(&[0, 1, 2], 1))], vec![sub(arr(&[0], 1).prio(5)), sub(arr(&[0], 1).prio(-5))]],
+        )
+        .prefill(0, 1)
+        .budgets(1, 0, 0, 1)
+        .depth(if quick { 11 } else { 0 })
+        .cap(2_000_000),
     ]
 }
 
